@@ -92,7 +92,17 @@ def _library_verdict(e):
 
 def run_case_guarded(mod, case):
     try:
-        return mod.run_case(case)
+        _arm_watchdog()
+        try:
+            return mod.run_case(case)
+        finally:
+            _disarm_watchdog()
+    except CaseTimeout as e:
+        who, where, kind = e.args[0]
+        if who == 'library':
+            return dict(viol=[viol('library-did-not-terminate', 'a library call did not return within the %s budget of a case (every case of the unchanged tree needs a small '
+                                   'fraction of it)' % kind, 'returns', 'still running in %s' % where)], obs='library-did-not-terminate')
+        raise HarnessError('a case did not finish within the %s budget (stopped in %s): %s' % (kind, where, json.dumps(case, default=repr)[:300]))
     except HarnessError:
         raise
     except Exception as e:
@@ -100,6 +110,42 @@ def run_case_guarded(mod, case):
         if r is None:
             raise
         return r
+
+
+class CaseTimeout(BaseException):
+    pass
+
+
+def _arm_watchdog():
+    """A case that burns more CPU than any case of any tier ever needed (measured in process CPU time, so machine load does not
+    matter), or that makes no progress for hours of wall time, is stopped: a non-terminating library call is a verdict, anything else
+    a harness error - a check must never hang."""
+    import signal
+    cpu = float(os.environ.get('VERIF_CASE_CPU_SECONDS', '3600'))
+    wall = float(os.environ.get('VERIF_CASE_WALL_SECONDS', '14400'))
+
+    def fire(signum, frame):
+        f = frame
+        origin = f.f_code.co_filename if f is not None else ''
+        lib = os.path.join(os.environ.get('PLAYBACK_VERIF_REPO') or '/repo', 'playback') + os.sep
+        where = '%s:%s' % (os.path.basename(origin), f.f_code.co_name) if f is not None else '?'
+        raise CaseTimeout(('library' if origin.startswith(lib) else 'harness', where, 'cpu' if signum == signal.SIGPROF else 'wall'))
+    try:
+        signal.signal(signal.SIGPROF, fire)
+        signal.signal(signal.SIGALRM, fire)
+        signal.setitimer(signal.ITIMER_PROF, cpu)
+        signal.setitimer(signal.ITIMER_REAL, wall)
+    except (ValueError, AttributeError, OSError):
+        pass   # not in the main thread of the process / no such timer: run without the watchdog
+
+
+def _disarm_watchdog():
+    import signal
+    try:
+        signal.setitimer(signal.ITIMER_PROF, 0)
+        signal.setitimer(signal.ITIMER_REAL, 0)
+    except (ValueError, AttributeError, OSError):
+        pass
 
 
 def _wrun(chunk):
